@@ -199,6 +199,94 @@ fn run_reader(text: &str, b: Budget, chunking: &Chunking) -> Option<(Run, SimRea
     ))
 }
 
+/// the remaining single-document entry points: 0 from_slice, 1 with_deserializer_from_str,
+/// 2 with_deserializer_from_slice, 3 with_deserializer_from_reader, 4 from_slice_multiple,
+/// 5 from_str_valid (garde), 6 from_str_validate (validator), 7 from_reader_valid, 8 from_reader_validate
+const OTHER_ENTRIES: [&str; 9] = [
+    "from_slice",
+    "with_deserializer_from_str",
+    "with_deserializer_from_slice",
+    "with_deserializer_from_reader",
+    "from_slice_multiple",
+    "from_str_valid",
+    "from_str_validate",
+    "from_reader_valid",
+    "from_reader_validate",
+];
+
+fn run_other(which: usize, text: &str, b: Budget, chunking: &Chunking) -> Option<Run> {
+    let reports: Rc<RefCell<Vec<BudgetReport>>> = Rc::new(RefCell::new(Vec::new()));
+    let r2 = reports.clone();
+    let opts = options_with(b).with_budget_report(move |r| r2.borrow_mut().push(r));
+    let de = |d: serde_saphyr::Deserializer| <Json as serde::Deserialize>::deserialize(d).map(|_| ());
+    let mk_reader = || {
+        SimReader::new(
+            text.as_bytes(),
+            ReaderScript {
+                chunking: Some(chunking.clone()),
+                ..Default::default()
+            },
+        )
+    };
+    let res = match which {
+        0 => guard(|| serde_saphyr::from_slice_with_options::<Json>(text.as_bytes(), opts).map(|_| ())),
+        1 => guard(|| serde_saphyr::with_deserializer_from_str_with_options(text, opts, de)),
+        2 => guard(|| serde_saphyr::with_deserializer_from_slice_with_options(text.as_bytes(), opts, de)),
+        3 => {
+            let rd = mk_reader();
+            guard(|| serde_saphyr::with_deserializer_from_reader_with_options(rd, opts, de))
+        }
+        4 => guard(|| serde_saphyr::from_slice_multiple_with_options::<Json>(text.as_bytes(), opts).map(|_| ())),
+        5 => guard(|| serde_saphyr::from_str_with_options_valid::<Json>(text, opts).map(|_| ())),
+        6 => guard(|| serde_saphyr::from_str_with_options_validate::<Json>(text, opts).map(|_| ())),
+        7 => {
+            let rd = mk_reader();
+            guard(|| serde_saphyr::from_reader_with_options_valid::<_, Json>(rd, opts).map(|_| ()))
+        }
+        _ => {
+            let rd = mk_reader();
+            guard(|| serde_saphyr::from_reader_with_options_validate::<_, Json>(rd, opts).map(|_| ()))
+        }
+    };
+    let res = res.ok()?;
+    Some(Run {
+        result: res.map_err(|e| breach_of(&e)),
+        reports: reports.borrow().clone(),
+    })
+}
+
+/// items of the garde (0) / validator (1) streaming iterators
+fn run_iter_validating(which: usize, text: &str, b: Budget, chunking: &Chunking, max_calls: usize) -> Option<(Vec<Result<(), String>>, bool)> {
+    let mut rd = SimReader::new(
+        text.as_bytes(),
+        ReaderScript {
+            chunking: Some(chunking.clone()),
+            ..Default::default()
+        },
+    );
+    let opts = options_with(b);
+    let mut items = Vec::new();
+    let mut terminated = false;
+    guard(|| {
+        let mut it: Box<dyn Iterator<Item = Result<Json, Error>>> = if which == 0 {
+            Box::new(serde_saphyr::read_with_options_valid::<_, Json>(&mut rd, opts))
+        } else {
+            Box::new(serde_saphyr::read_with_options_validate::<_, Json>(&mut rd, opts))
+        };
+        for _ in 0..max_calls {
+            match it.next() {
+                Some(r) => items.push(r.map(|_| ()).map_err(|e| breach_of(&e))),
+                None => {
+                    terminated = true;
+                    break;
+                }
+            }
+        }
+    })
+    .ok()?;
+    Some((items, terminated))
+}
+
 /// items of the streaming iterator as Ok / breach name / error kind
 fn run_iter(text: &str, b: Budget, chunking: &Chunking, max_calls: usize) -> Option<(Vec<Result<(), String>>, bool, SimReader)> {
     let mut rd = SimReader::new(
@@ -337,13 +425,54 @@ pub fn exec(c: &BudgetCase, st: &mut Stats) -> Vec<Viol> {
                     if !must_pass && n == 0 {
                         continue;
                     }
-                    let runs: Vec<(&str, Option<Run>)> = vec![
-                        ("from_str", run_str(&dtext, with_limit(cn, limit), false)),
-                        ("from_multiple", run_str(&dtext, with_limit(cn, limit), true)),
-                        ("from_reader", run_reader(&dtext, with_limit(cn, limit), &c.chunking).map(|x| x.0)),
+                    let mut runs: Vec<(String, Option<Run>)> = vec![
+                        ("from_str".into(), run_str(&dtext, with_limit(cn, limit), false)),
+                        ("from_multiple".into(), run_str(&dtext, with_limit(cn, limit), true)),
+                        ("from_reader".into(), run_reader(&dtext, with_limit(cn, limit), &c.chunking).map(|x| x.0)),
                     ];
+                    for (w, name) in OTHER_ENTRIES.iter().enumerate() {
+                        runs.push((name.to_string(), run_other(w, &dtext, with_limit(cn, limit), &c.chunking)));
+                    }
+                    // the same document closed by `...` and followed by text the scanner rejects: that text is
+                    // ignored by the single-document entry points, the budget is not (the stream then has no
+                    // StreamEnd event, so the events counter is left out)
+                    if cn != Counter::Events && !dtext.contains("...") {
+                        let g = format!("{dtext}...\n]\n");
+                        runs.push(("from_str + garbage after `...`".into(), run_str(&g, with_limit(cn, limit), false)));
+                        runs.push(("from_reader + garbage after `...`".into(), run_reader(&g, with_limit(cn, limit), &c.chunking).map(|x| x.0)));
+                        for w in [0usize, 1, 2, 3, 5, 6, 7, 8] {
+                            runs.push((
+                                format!("{} + garbage after `...`", OTHER_ENTRIES[w]),
+                                run_other(w, &g, with_limit(cn, limit), &c.chunking),
+                            ));
+                        }
+                    }
                     for (name, r) in runs {
                         let Some(r) = r else { continue };
+                        // a successful call hands over exactly one report, and it equals the model
+                        if r.result.is_ok() {
+                            if r.reports.len() != 1 {
+                                out.push(mk(
+                                    "report-callback-count",
+                                    format!("{name}: returned Ok and invoked the report callback {} times", r.reports.len()),
+                                    vec![cn],
+                                ));
+                            } else {
+                                let mut got = report_counts(&r.reports[0]);
+                                let mut want = m_full.total.clone();
+                                if name.contains("garbage") {
+                                    got.events = 0;
+                                    want.events = 0;
+                                }
+                                if got != want {
+                                    out.push(mk(
+                                        "report-differs-from-model",
+                                        format!("{name}: report {got:?} vs independent count {want:?}"),
+                                        vec![cn],
+                                    ));
+                                }
+                            }
+                        }
                         st.evals += 1;
                         st.bump(if must_pass { "threshold.at_usage" } else { "fired.limit_one_below_usage" });
                         st.note(&format!("{:?}", r.result));
@@ -532,6 +661,22 @@ pub fn exec(c: &BudgetCase, st: &mut Stats) -> Vec<Viol> {
                 if f_items.iter().take(pos).any(|x| matches!(x, Err(e) if !e.starts_with("not-a-budget-error"))) {
                     st.bump("skipped.earlier_document_breaches_this_limit");
                     continue;
+                }
+                // the garde / validator iterators are separate copies of the plain one: same items
+                for which in 0..2 {
+                    if let Some((v_items, v_term)) = run_iter_validating(which, &full_text, with_limit(cn, limit), &c.chunking, full.len() + 4) {
+                        st.evals += 1;
+                        if v_items != f_items || v_term != f_term {
+                            out.push(mk(
+                                "validating-iterator-differs",
+                                format!(
+                                    "{cn:?} limit {limit}: read_with_options gives {f_items:?}, {} gives {v_items:?}",
+                                    if which == 0 { "read_with_options_valid" } else { "read_with_options_validate" }
+                                ),
+                                vec![cn],
+                            ));
+                        }
+                    }
                 }
                 if a != f {
                     out.push(mk(
